@@ -233,7 +233,7 @@ def gen_recurrent(rng, malformed, refrac0=False):
     case = {"kind": "recurrent", "B": B, "dt": dt,
             "conns": [gen_conn(rng, cn[0], ish, fsh, dt), gen_conn(rng, cn[1], fsh, bsh, dt), gen_conn(rng, cn[2], bsh, fb_out, dt)],
             "neurs": [gen_neuron(rng, nn[0], fsh, dt, refrac0=refrac0), gen_neuron(rng, nn[1], bsh, dt, refrac0=refrac0)],
-            "tr": [gen_tr(rng), gen_tr(rng), gen_tr(rng)], "itr": itr}
+            "tr": [gen_tr(rng), gen_tr(rng), gen_tr(rng)], "itr": itr, "trainable": rng.random() < 0.3}
     a0, a1 = (case["neurs"][0]["acfg"] is not None), (case["neurs"][1]["acfg"] is not None)
 
     def fwd():
@@ -416,7 +416,7 @@ def q_case(case):
         return ("run_recurrent " + " ".join(q_conn(x, B, dt) for x in c) + " " + " ".join(q_neuron(x, B, dt) for x in n) +
                 " " + " ".join(q_tr(t) for t in case["tr"]) + " " + " ".join(q_itr(t) for t in case["itr"]) + " " +
                 " ".join(F.coq_Z(x["name"]) for x in c) + " " + " ".join(F.coq_Z(x["name"]) for x in n) + " " +
-                F.coq_list(ops))
+                b(case.get("trainable", False)) + " " + F.coq_list(ops))
     raise AssertionError(kind)
 
 
